@@ -161,8 +161,12 @@ Inductive prot :=
 | HandedOff (c : string)     (* trusted: ownership passes through channel c *)
 | Confined                   (* trusted: touched by one goroutine at a time by construction *)
 | SelfSynchronised           (* trusted: sync.* value / value of a type with its own discipline *)
-| LockTransferred (l : string). (* trusted: guarded by l, but l is acquired in one function and
+| LockTransferred (l : string) (* trusted: guarded by l, but l is acquired in one function and
                                 released through a pointer elsewhere, which vskel cannot follow *)
+| ImmutableAfterPublish.     (* an atomic.Value / atomic.Pointer: accessed only through its atomic
+                                methods, and the object handed to Store/Swap is never written
+                                through the storing function's local afterwards (vskel records such
+                                a write as a KWrite of the cell) *)
 
 Definition policy := list (string * string * prot).
 
@@ -191,7 +195,7 @@ Definition access_ok (pr : prot) (f : access_fact) : bool :=
       | KWrite | KAddrArg => has_lock l MW (a_locks f)
       | KAtomic | KUnknown => false
       end
-  | AtomicOnly => match a_kind f with KAtomic => true | _ => false end
+  | AtomicOnly | ImmutableAfterPublish => match a_kind f with KAtomic => true | _ => false end
   | WriteOnceBeforePublish => match a_kind f with KRead => true | _ => false end
   | HandedOff _ | Confined | SelfSynchronised | LockTransferred _ => true
   end.
@@ -238,7 +242,7 @@ Definition ipol (pol : policy) (field_of : loc -> string * string)
   match lookup pol (fst (field_of x)) (snd (field_of x)) with
   | Some (GuardedBy l) => IGuarded (lock_inst x l)
   | Some (RGuardedBy l) => IRGuarded (lock_inst x l)
-  | Some AtomicOnly => IAtomic
+  | Some AtomicOnly | Some ImmutableAfterPublish => IAtomic
   | _ => IOther
   end.
 
